@@ -8,4 +8,5 @@ Definition full_text (p : qstr) (m : msg) : qstr := concat_pieces m (parse_patte
 Definition inband_pattern (mk : N) (p : qstr) (m : msg) : qstr := format_inband mk (parse_pattern p) m.
 Definition oob_pattern (p : qstr) (m : msg) : qstr := format_oob (parse_pattern p) m.
 Extraction "pattern_model.ml" format_pattern oracle_pattern n_removing n_tokens full_text inband_pattern oob_pattern
-  parse_pattern src_inband_marker result_is_null oracle_pattern_null.
+  parse_pattern src_inband_marker result_is_null oracle_pattern_null
+  construct call_model otoks.
